@@ -53,6 +53,8 @@ type bridgePeer struct {
 	hold   time.Duration // nothing is delivered on this link before start+hold
 	closed atomic.Bool
 	kv     sync.Map
+	// counters for the diagnostics of a stall
+	queued, delivered, skipped, refused atomic.Int64
 }
 
 // Get / Set: the product's peer keeps these values in a concurrent map; mock.Peer uses a plain one, which the reactors'
@@ -76,10 +78,13 @@ func (p *bridgePeer) Send(ch byte, b []byte) bool {
 	}
 	select {
 	case p.q <- wire{ch, append([]byte{}, b...)}:
+		p.queued.Add(1)
 		return true
 	case <-p.done:
+		p.refused.Add(1)
 		return false
 	case <-time.After(2 * time.Second):
+		p.refused.Add(1)
 		return false
 	}
 }
@@ -89,8 +94,10 @@ func (p *bridgePeer) TrySend(ch byte, b []byte) bool {
 	}
 	select {
 	case p.q <- wire{ch, append([]byte{}, b...)}:
+		p.queued.Add(1)
 		return true
 	default:
+		p.refused.Add(1)
 		return false
 	}
 }
@@ -251,8 +258,10 @@ func TestRealReactors(t *testing.T) {
 						return
 					case w := <-p.q:
 						if !back.IsRunning() || !p.IsRunning() {
+							p.skipped.Add(1)
 							continue // the switch on one side has dropped this peer: the connection is gone (see the watch loop)
 						}
+						p.delivered.Add(1)
 						func() {
 							defer func() {
 								// MConnection's recvRoutine recovers a panic of Receive and drops the peer; here it is a
@@ -494,6 +503,23 @@ func TestRealReactors(t *testing.T) {
 				// grow for this long (blocks take a fraction of a second here) is not coming back
 				if time.Since(lastChange[i]) > stall {
 					verdict = fmt.Sprintf("node %d has not committed anything for %v (height/round/step per node: %s)", i, stall, fp)
+					// every node's own votes of its current round, every live link's counters, and every view of every node
+					for a := 0; a < n; a++ {
+						if ra := nodeAt(a); ra != nil {
+							rs := ra.nd.CS.GetRoundState()
+							verdict += fmt.Sprintf("\n n%d %d/%d/%v own prevotes=%v precommits=%v lastCommit=%v", a, rs.Height, rs.Round, rs.Step, rs.Votes.Prevotes(rs.Round).BitArray(), rs.Votes.Precommits(rs.Round).BitArray(), rs.LastCommit != nil)
+						}
+						for b := 0; b < n; b++ {
+							if pl := peers[a][b]; pl != nil && !pl.closed.Load() {
+								view := "no peer state"
+								if ps, ok := pl.Get(types.PeerStateKey).(*consensus.PeerState); ok {
+									prs := ps.GetRoundState()
+									view = fmt.Sprintf("%d/%d/%v prevotes=%v precommits=%v", prs.Height, prs.Round, prs.Step, prs.Prevotes, prs.Precommits)
+								}
+								verdict += fmt.Sprintf("\n   link n%d->n%d queued=%d delivered=%d skipped=%d refused=%d inqueue=%d; n%d believes n%d is at %s", a, b, pl.queued.Load(), pl.delivered.Load(), pl.skipped.Load(), pl.refused.Load(), len(pl.q), a, b, view)
+							}
+						}
+					}
 					// what the stalled node holds, and what its peers believe about it
 					if rn := nodeAt(i); rn != nil {
 						rs := rn.nd.CS.GetRoundState()
